@@ -23,6 +23,11 @@ def judgeDeadline (entry shape : String) (toMs : Nat) (elapsed tdl closed : Int)
     s!"VIOL outgoing-not-closed-in-time entry={entry} shape={shape} closed={closed} timeout={to}"
   else s!"OK nt b={entry}-{shape}"
 
+/-- Optional white space (SP / HTAB) stripped from both ends: what net/http (textproto) does to a header value. -/
+def trimOWS (s : Bytes) : Bytes :=
+  let isWS (b : UInt8) : Bool := b == 32 || b == 9
+  ((s.dropWhile isWS).reverse.dropWhile isWS).reverse
+
 /-- `dec <hex> => none | some:<int>` -/
 def handle : Handler
   | ["dec", hx], [out] =>
@@ -65,6 +70,28 @@ def handle : Handler
     | some to, some e, some td, some c, [_, outcome] =>
       judgeDeadline entry shape to e td c outcome
     | _, _, _, _, _ => "BAD c12 dl fields"
+  | ["raw", carry, hx], [td] =>
+    -- `raw <carriage> <hex value> => tdl=<ms>`: a RAW grpc-timeout value carried in a `_metadata[grpc-timeout]` query entry
+    -- of a WebSocket upgrade (`wsq`: the value reaches the decoder as sent) or in a header line (`wsh`, `httph`, `grpcwebh`:
+    -- net/http strips optional white space around a header value, so the stripped value reaches the decoder). Spec: the
+    -- target is given a deadline iff that value is well-formed (`specTimeout`), and then the client's.
+    let num (s : String) : Option Int := match s.splitOn "=" with | [_, v] => v.toInt? | _ => none
+    match parseHex hx, num td with
+    | some raw, some t =>
+      let v := if carry == "wsq" then raw else trimOWS raw
+      match specTimeout v with
+      | none =>
+        if t == -1 then "OK nt b=raw-ignored"
+        else if t == -2 then "DIFF model=called-without-deadline (target not reached)"
+        else s!"VIOL malformed-timeout-enforced carriage={carry} tdl={t}"
+      | some ns =>
+        let ms : Int := ns / 1000000
+        if t == -1 then s!"VIOL well-formed-timeout-not-enforced carriage={carry} want={ms}ms"
+        else if t == -2 then (if ms < 100 then "OK b=raw-expired" else "DIFF model=deadline (target not reached)")
+        else if t > ms + skew then s!"VIOL target-later-deadline carriage={carry} tdl={t} timeout={ms}"
+        else if t < ms - 60 then s!"VIOL target-earlier-deadline carriage={carry} tdl={t} timeout={ms}"
+        else "OK nt b=raw-deadline"
+    | _, _ => "BAD c12 raw fields"
   | _, _ => "BAD c12 line"
 
 end GB.C12
